@@ -6,6 +6,7 @@ import Csvq.Model.ParseFloat
 import Csvq.Model.ParseTime
 import Csvq.Model.FormatFloat
 import Csvq.Model.FormatTime
+import Csvq.Model.CellText
 namespace Csvq.Drive
 open Csvq Csvq.Proto
 
@@ -123,6 +124,18 @@ def c06 (cmd : String) (args : List String) : String :=
     match parseHexX h with
     | some b => hex (FT.convertFormat false b)
     | none => bad
+  | "cell", [v, off] =>
+    -- a non-string value, the cell texts ConvertFieldContents gives it, and the original against a String
+    -- holding the plain text: ladder result, `=`, `<`, the two comparison keys
+    match parseVal v, off.toInt? with
+    | some v, some off =>
+      let tf := cellText v false false off
+      let p := profileOf v
+      let q := profileOfText tf ((PF.trimSpace tf).map asciiUpper)
+      let kt : KeyText := { itext := decText, ftext := FF.fmtF }
+      String.intercalate " " ["x" ++ hex tf, "x" ++ hex (cellText v false true off), "x" ++ hex (cellText v true false off),
+        (cmp p q).toStr, (opEq p q).toStr, (opLt p q).toStr, "x" ++ hex (serKey kt (norm p)), "x" ++ hex (serKey kt (norm q))]
+    | _, _ => bad
   | "prof", [v] =>
     match parseVal v with
     | some v => showProfile (profileOf v)
